@@ -46,6 +46,9 @@ CNAMES = ["C", "D"]
 ROOTS = ["pa", "pb"]
 SUBS = ["s1", "s2"]
 MEMBERS = ["m1", "m2"]
+# attributes that every module of the universe serves *dynamically* through a module-level `__getattr__` (PEP 562):
+# present for `getattr(module, name)`, absent from `vars(module)`
+DYNAMIC = ["d1", "d2"]
 ATTRS = ["u", "v"]
 BUILTIN_READS = ["len", "Exception"]
 
@@ -362,6 +365,12 @@ class _Finder(importlib.abc.MetaPathFinder, importlib.abc.Loader):
         for m in MEMBERS:
             object.__setattr__(module, m, K)
 
+        def __getattr__(name, _m=module):
+            if name in DYNAMIC:
+                return K
+            raise AttributeError("module %r has no attribute %r" % (_m.__name__, name), name=name, obj=_m)
+        object.__setattr__(module, "__getattr__", __getattr__)
+
 
 FINDER = _Finder()
 
@@ -403,7 +412,7 @@ def build_ns(spec):
                 ns[n] = sys.modules[v[1]]
             elif v[0] == "fakemod":
                 m = _M(v[1])
-                for x in MEMBERS + SUBS + ATTRS:
+                for x in MEMBERS + DYNAMIC + SUBS + ATTRS:
                     object.__setattr__(m, x, K)
                 ns[n] = m
             elif v[0] == "none":
@@ -419,6 +428,17 @@ def build_ns(spec):
 # ----------------------------------------------------------------------------
 FN = "<c05prog>"
 _LOADS = None
+
+
+def _origin_here(tb):
+    """the exception was raised by this program frame itself (possibly inside harness/C code it called, e.g. a module's
+    `__getattr__`), not by a deeper frame of the program"""
+    t = tb.tb_next
+    while t is not None:
+        if t.tb_frame.f_code.co_filename == FN:
+            return False
+        t = t.tb_next
+    return True
 
 
 def _quoted(msg):
@@ -489,7 +509,7 @@ def run_once(src, marker, g):
             executed.add((frame.f_code, frame.f_lasti))
         elif event == "exception":
             et, ev, tb = arg
-            if tb is not None and tb.tb_next is None:
+            if tb is not None and _origin_here(tb):
                 if isinstance(ev, UnboundLocalError):
                     local_ne.append(_quoted(str(ev)))
                 elif isinstance(ev, NameError):
@@ -645,6 +665,9 @@ def registry_snapshot():
             if a.startswith("__"):
                 continue
             at.append([a, ["mod", ids[id(v)]] if id(v) in ids else ["obj"]])
+        for a in DYNAMIC:
+            if a not in vars(sys.modules[m]):
+                at.append([a, ["obj"]])
         out.append([m, at])
     return out
 
@@ -662,7 +685,7 @@ class Gen(object):
         self.wild = wild
         self.ext = ext       # unclaimed extension statements (global/nonlocal/del)
         self.features = set()
-        self.V, self.F, self.C, self.R, self.S, self.M, self.A = VNAMES, FNAMES, CNAMES, ROOTS, SUBS, MEMBERS, ATTRS
+        self.V, self.F, self.C, self.R, self.S, self.M, self.A = VNAMES, FNAMES, CNAMES, ROOTS, SUBS, MEMBERS + DYNAMIC[:1], ATTRS
         self.B = BUILTIN_READS
 
     # -- helpers ------------------------------------------------------------
